@@ -38,7 +38,7 @@ META = {
         'judged_definition', 'judged_ctx_eq', 'judged_ctx_ne', 'judged_crc32', 'judged_agreement',
         'aliasing_sweeps', 'live_definitions_compared', 'followup_edits_that_changed_target',
         'derivation_rejected_for_conflict', 'ctx_eq_true', 'ctx_eq_false', 'involutions_checked',
-        'crc32_with_encoding'],
+        'crc32_with_encoding', 'large_derivation_sessions'],
     'shards': {'quick': 16, 'thorough': 16},
     'exhaustive': {'thorough': 'all 113 x 113 ordered pairs of definitions over {a,b}x{p,q} x all derivations'},
     'assumptions': ['comparison of a context with a non-context is out of scope',
@@ -270,6 +270,8 @@ def cases(tier, seed, spec):
                 yield {'kind': 'pair', 'i': i, 'j': j}
     for r in range(150 if tier == 'quick' else 3000):
         yield {'kind': 'random', 'n': r}
+    for r in range(32 if tier == 'quick' else 400):
+        yield {'kind': 'large', 'n': r}
     yield from (dict(c, kind='ctx') for c in gen.ctx_stream(tier, seed, with_wide=False, scale=.5 if tier == 'quick' else .2))
 
 
@@ -368,6 +370,39 @@ def run_random(concepts, case, spec):
     COL.count('random_sessions')
 
 
+def run_large(concepts, case, spec):
+    """Derivations that drop or merge many names at once (axes of 70-400 names), each followed by
+    edits and a further derivation that consults the names dropped before."""
+    D = concepts.Definition
+    rng = random.Random(f"{spec['seed']}/c14large/{case['n']}")
+    no, np_ = rng.choice([(80, 5), (150, 8), (300, 4), (6, 200), (400, 3)])
+    objs = [f'o{i:03d}' for i in range(no)]
+    props = [f'p{j:03d}' for j in range(np_)]
+    x = D(objs, props, [tuple(rng.random() < .4 for _ in props) for _ in objs])
+    keep_o = rng.sample(objs, max(2, no // rng.choice([3, 10, 40])))
+    keep_p = rng.sample(props, max(1, np_ // rng.choice([1, 2])))
+    sub = call(x.take, keep_o, keep_p, reorder=rng.random() < .5)
+    y = D(keep_o[:len(keep_o) // 2] + ['yo1'], keep_p + ['yp1'],
+          [tuple(bool(x[o, p]) if o in objs and p in props else True for p in keep_p + ['yp1'])
+           for o in keep_o[:len(keep_o) // 2] + ['yo1']])
+    inter = call(x.intersection, y, ignore_conflicts=True)
+    inter2 = call(lambda: x & y)
+    for z in (sub, inter, inter2):
+        if z is RAISED or not isinstance(z, D):
+            continue
+        dropped = [o for o in objs if o not in z.objects][:3]
+        for o in dropped:                        # names dropped by the bulk step are consulted again
+            call(z.add_object, o, list(z.properties)[:1])
+            call(lambda: z[o, list(z.properties)[0]] if z.properties else None)
+        call(z.union, x)
+        call(z.union, x, ignore_conflicts=True)
+        call(lambda: x | z)
+        call(z.transposed)
+        if dropped:
+            call(z.rename_object, z.objects[0], dropped[-1] + '_again')
+    COL.count('large_derivation_sessions')
+
+
 def run_ctx(concepts, case, spec):
     C, D = concepts.Context, concepts.Definition
     rng = common.rng_for(case, spec)
@@ -451,5 +486,7 @@ def run_case(concepts, case, spec):
         run_pair(concepts, case, spec)
     elif case['kind'] == 'random':
         run_random(concepts, case, spec)
+    elif case['kind'] == 'large':
+        run_large(concepts, case, spec)
     else:
         run_ctx(concepts, case, spec)
